@@ -106,6 +106,9 @@ RareContainers ==
         DictOf(<<DKey(KA, BareBytes, FALSE), DKey(KB, BareDate, TRUE)>>)}
   \cup {AnyOf(<<SBytesA, SDate0>>), AnyOf(<<SDatetime0, SDate0, SUuid0, BareNone>>), AnyOf(<<BareBool, SFloatPrec>>),
         SAlias("T", SBytesA), SAlias("T", AnyOf(<<SDate0, BareNone>>))}
+  \* keys whose text means something to str.format: errors below them are rendered with that path
+  \cup {DictOf(<<DKey(VStr(<<123, 125>>), SInt1, FALSE), DKey(VStr(<<123, 105, 100, 125>>), SStrAB, TRUE)>>),
+        TypedList(DictOf(<<DKey(VStr(<<123, 48, 125>>), SInt05, FALSE)>>))}
 
 Focus == RareContainers \cup AnysOver({R_DictRelaxed, R_Dict, SInt1}) \cup
          ListsOver({R_DictRelaxed}, {R_DictRelaxed, R_Any}) \cup
